@@ -359,7 +359,6 @@ def m_choices(rng, n, extra):
     return sorted(x for x in base if 2 <= x <= N)
 
 
-
 def _limit_blas_threads(n_threads=2):
     """OpenBLAS threading does not speed these small tensor contractions up but occupies every core; cap it (best
     effort, silently skipped when the bundled library or symbol is not found)."""
@@ -416,6 +415,8 @@ def evaluate(ctx, deep):
     for n in range(2, nmax + 1):
         N = 2 ** n
         ms = m_choices(rng, n, 3 if deep else 1)
+        if not deep and n >= 6:
+            ms = [m for m in ms if m != N - 1]
         if n >= 7:
             ms = [m for m in ms if m <= 40] + ([N] if (n == 7 and deep) else [])
         for m in ms:
